@@ -86,7 +86,9 @@ pub fn oneshot() -> i32 {
     let out = json!({
         "violation": v.violation.as_ref().map(|x| json!({"oracle": x.oracle, "site": x.site, "detail": x.detail, "step": x.step})),
         "aborted": v.aborted.as_ref().map(|x| json!({"oracle": x.oracle, "site": x.site, "detail": x.detail})),
-        "trace": format!("{:016x}", v.trace),
+        // the transcript compared across configurations: API outcomes only (SimOS events
+        // such as write offsets and sizes depend on the page size by design)
+        "trace": format!("{:016x}", v.api_trace),
         "commits": v.stats.commits,
         "steps": v.stats.steps,
         "growths": v.stats.probes.get("file_growth").copied().unwrap_or(0),
@@ -136,7 +138,7 @@ fn run_odd(case: &Case) -> Verdict {
         let ecfg = props::engine_cfg(&case2, &path);
         let src = Source::List(case2.steps.clone().unwrap_or_default().into_iter().collect());
         let out = Engine::new(ecfg, src, &arena).run();
-        let mut v = Verdict { violation: out.violation, aborted: out.aborted, trace: out.trace, issued: out.issued, stats: out.stats, ..Default::default() };
+        let mut v = Verdict { violation: out.violation, aborted: out.aborted, trace: out.trace, api_trace: out.trace, issued: out.issued, stats: out.stats, ..Default::default() };
         if let Some(h) = crate::seq::HARNESS_FAULT.with(|p| p.borrow_mut().take()) {
             v.harness_error = Some(format!("the harness itself panicked: {}", h));
         }
